@@ -369,6 +369,13 @@ func (f *faultWriter) Write(p []byte) (int, error) {
 	return len(p), nil
 }
 
+// faultStringWriter is the same writer with a WriteString method as well (the shape of *os.File,
+// *bufio.Writer, *bytes.Buffer): io.WriteString and fmt take that route when it exists, and the
+// failure schedule counts a WriteString like a Write.
+type faultStringWriter struct{ *faultWriter }
+
+func (f faultStringWriter) WriteString(s string) (int, error) { return f.faultWriter.Write([]byte(s)) }
+
 // ---------- the executor ----------
 
 type renderTable interface {
@@ -1255,8 +1262,13 @@ func (x *Exec) do1(line string) (res string, leanLine string) {
 	case "appendnewrow":
 		t := idOf(toks[1])
 		x.curTable = t
+		id := x.newRowID(nil) // reserved first: add-time row callbacks see the row before we are handed it
+		x.pending = id
+		defer func() { x.pending = -1 }()
 		r := x.tables[t].AppendNewRow()
-		return fmt.Sprintf("R%d", x.newRowID(r)), line
+		x.rows[id] = r
+		x.rowID[r] = id
+		return fmt.Sprintf("R%d", id), line
 	case "rowadd":
 		x.rows[idOf(toks[1])].Add(tabular.NewCell(x.items[idOf(toks[2])]))
 		return "ok", line
@@ -1273,9 +1285,15 @@ func (x *Exec) do1(line string) (res string, leanLine string) {
 		return "ok", line
 	case "addsep":
 		t := idOf(toks[1])
+		x.curTable = t
+		id := x.newRowID(nil)
+		x.pending = id
+		defer func() { x.pending = -1 }()
 		x.tables[t].AddSeparator()
 		all := x.tables[t].AllRows()
-		return fmt.Sprintf("R%d", x.newRowID(all[len(all)-1])), line
+		x.rows[id] = all[len(all)-1]
+		x.rowID[all[len(all)-1]] = id
+		return fmt.Sprintf("R%d", id), line
 	case "rowadderr":
 		for _, e := range parseErrs(toks[2]) {
 			x.rows[idOf(toks[1])].AddError(e)
@@ -1431,7 +1449,11 @@ func (x *Exec) do1(line string) (res string, leanLine string) {
 			cs[i] = strconv.Itoa(c)
 		}
 		leanLine = fmt.Sprintf("frender %s %s cs=%s", toks[1], toks[2], joinC(cs))
-		err := w.obj.RenderTo(fw)
+		var dst io.Writer = fw
+		if (fw.k+len(lc))%2 == 1 {
+			dst = faultStringWriter{fw}
+		}
+		err := w.obj.RenderTo(dst)
 		return fmt.Sprintf("res=%s calls=%d acc=%s", classify(err), fw.calls, hx(fw.acc.String())), leanLine
 	case "register":
 		decoration.RegisterDecorationName(unhx(toks[1]), parseDecor(toks[2]))
@@ -1502,7 +1524,10 @@ var lastErrText string
 // registeredNames: every decoration name this process registered (name -> encoded decoration),
 // kept by the harness so the oracles do not have to trust the registry's own listing.
 var registeredNames = map[string]string{}
-var builtinNames = decoration.RegisteredDecorationNames()
+var builtinNames = func() []string {
+	_ = startupViolation // ordering: the first-touch probe runs before anything else reads the registry
+	return decoration.RegisteredDecorationNames()
+}()
 var rcCalls []int
 
 func itemSame(a, b interface{}) (same bool) {
